@@ -1,7 +1,7 @@
 //! One entry per property: which families it runs, which clauses count, what the evidence says.
 use crate::common::*;
 use crate::orch::*;
-use crate::{arcs, fam_lit, fam_path, fam_race, fam_sync, lit, rc11, sync};
+use crate::{arcs, fam_diff, fam_fut, fam_iso, fam_spin, fam_statics, fam_lit, fam_path, fam_race, fam_sync, lit, rc11, sync};
 use serde_json::{json, Value};
 use std::time::{Duration, Instant};
 
@@ -13,6 +13,11 @@ pub fn work(family: &str, prop: &str, tier: u8, seed: u64, idx: usize) -> Rec {
         "sync" => fam_sync::work(prop, tier, seed, idx),
         "race" => fam_race::work(tier, seed, idx),
         "arc" => arcs::work(prop, tier, seed, idx),
+        "diff" => fam_diff::work(tier, seed, idx),
+        "iso" => fam_iso::work(tier, seed, idx),
+        "spin" => fam_spin::work(tier, seed, idx),
+        "fut" => fam_fut::work(tier, seed, idx),
+        "statics" => fam_statics::work(tier, seed, idx),
         _ => {
             let mut r = Rec::new(idx);
             r.status = format!("inconclusive:unknown-family-{}", family);
@@ -25,6 +30,11 @@ fn samples_from(recs: &[Rec], n: usize) -> Vec<Value> {
     let mut v = Vec::new();
     for r in recs.iter().filter(|r| r.nontrivial && r.extra.get("loom_outcomes").is_some()).take(n) {
         v.push(json!({"program": r.prog, "iterations": r.iters, "loom_outcomes": r.extra["loom_outcomes"], "reference_outcomes": r.extra["reference_outcomes"]}));
+    }
+    if v.is_empty() {
+        for r in recs.iter().filter(|r| r.nontrivial && r.extra.get("first_sequence").map(|x| x.as_array().map(|a| !a.is_empty()).unwrap_or(false)).unwrap_or(false)).take(n) {
+            v.push(json!({"case": r.prog, "observed": r.extra}));
+        }
     }
     if v.is_empty() {
         for r in recs.iter().filter(|r| r.nontrivial && r.extra.as_object().map(|o| o.len() > 1).unwrap_or(false)).take(n) {
@@ -142,6 +152,46 @@ fn def(prop: &str, tier: u8) -> Option<Def> {
             assumptions: vec!["notify_one: completeness assumes loom's FIFO choice, soundness accepts any waiter", "SeqCst atomics only give a lower bound (stale reads are legal for loom)"],
             min_nontrivial: 100,
         },
+        "C12" => Def {
+            parts: vec![("diff", fam_diff::total(tier))],
+            clauses: vec!["value_mismatch"],
+            rule: "for each of AtomicU8..U64/Usize, I8..I64/Isize, Bool, Ptr: seeded random operation sequences (quick 60, thorough 120 ops) applied side by side to the loom atomic (inside a single-threaded loom::model) and the std atomic: load, store, swap, compare_exchange(_weak), compare_and_swap, fetch_add/sub/and/nand/or/xor/max/min, fetch_update with a closure that declines chosen values, with_mut, unsync_load, into_inner/new; operands boundary-biased (0, 1, 2, MAX, MAX-1, MIN, MIN+1, -1, sign bit, values >= 2^32, random); every valid ordering; every return value and the final content compared; one job = 50 sequences of one type; non-trivial = the batch exercised >= 5 operation kinds; one iteration per model is asserted",
+            trusted: vec!["std::sync::atomic as the sequential model"],
+            assumptions: vec!["compare_exchange_weak is compared with std's strong variant (std's weak one may fail spuriously)"],
+            min_nontrivial: 12,
+        },
+        "C17" => Def {
+            parts: vec![("statics", fam_statics::total(tier))],
+            clauses: vec!["static_semantics", "static_init_not_ordered", "unexpected_panic"],
+            rule: "two loom::thread_local! keys and two loom::lazy_static! values declared in the harness whose init and Drop bump std counters: every 2-thread program with <= 2 static accesses per thread (with, nested with, try_with, lazy deref), all single-thread lists, 4-thread first-access races, + random programs (1-4 threads, <= 3 accesses, SeqCst atomics in between so that first-access races are explored, main joining before or after its own accesses). Per iteration (at the iteration hook): thread-local init count = number of threads touching the key, drops = inits, values private to their thread, try_with on the key under destruction = AccessError, lazy init count = 1 iff touched, one instance address for all threads, dropped by the end of the iteration and re-initialised in the next; a causality panic on the cell written inside init = missing init -> access edge. non-trivial = the program touches a static",
+            trusted: vec!["counters in std atomics (invisible to loom)", "iteration hook as the end-of-iteration point"],
+            assumptions: vec!["a thread-local first initialised from inside another key's destructor is not generated (hostile shape, see DESIGN §8)"],
+            min_nontrivial: 100,
+        },
+        "C20" => Def {
+            parts: vec![("fut", fam_fut::total(tier))],
+            clauses: vec!["lost_wakeup", "missed_deadlock", "block_on_no_return", "spurious_poll", "wrong_waker", "unexpected_panic"],
+            rule: "one scripted future (flag in a loom AtomicBool; waker published through future::AtomicWaker or through a slot in a loom Mutex; with or without the re-check after registering) driven by future::block_on, woken by 1-2 threads running every script of <= 3 steps over set-flag / wake / wake_by_ref / drop-the-waker / yield (enumerated) + random scripts; an explicit-state model of `loop { poll; wait }` decides whether a deadlock is owed (reachable without the spurious return) or allowed; block_on must return the output in every iteration otherwise; polls per iteration <= wakes + 2; three probes register 1-3 wakers with unique ids in an AtomicWaker while another thread calls wake(). non-trivial = at least one waking thread and an iteration observed (a deadlock owed by the model is reported in the first iteration)",
+            trusted: vec!["harness/src/fam_fut.rs reference model", "counters in std atomics"],
+            assumptions: vec!["everything the workload needs for progress goes through loom primitives (a waker handed over through a std mutex is, correctly, a lost wake-up in loom's model)"],
+            min_nontrivial: 50,
+        },
+        "C18" => Def {
+            parts: vec![("spin", fam_spin::total(tier))],
+            clauses: vec!["spin_no_progress", "spin_missing_exit", "spin_cut_off", "spin_forbidden_exit", "unexpected_panic"],
+            rule: "programs with await loops (`loop { v = x.load(o); if v != 0 { break } yield_now() }`, a quarter with hint::spin_loop) at any position of any thread, never two threads spinning at once: flag + data, awaited location written twice, two writers, two waiters in a chain, in every store/load ordering pair (enumerated) + random litmus programs with one inserted await and (7 of 8) an inserted store that establishes it; three never-true loops. The reference treats an await as a blocking read of any allowed non-zero value (RC11 strong for `must explore`, weak for `must not produce`); max_branches lowered to 300. non-trivial = the reference allows >= 2 outcomes, or the condition can stay false",
+            trusted: vec!["harness/src/rc11.rs (await = blocking read)", "harness/src/lit.rs interpreter"],
+            assumptions: vec!["a program whose condition can stay false in some interleaving must end in the branch-limit (or deadlock) panic; completeness is then not demanded"],
+            min_nontrivial: 30,
+        },
+        "C16" => Def {
+            parts: vec![("iso", fam_iso::total(tier))],
+            clauses: vec!["differs_after_failed_models", "differs_under_concurrent_models", "iteration_state_leaks", "unexpected_panic"],
+            rule: "each job takes a random litmus program and a random blocking program plus an identity model (ThreadIds of main and two children, an atomic and a channel that must start at their initial state in every iteration); their complete records (per-iteration outcome sequence, execution orders, decision paths, iteration counts, identity lines) are computed in a fresh process, again in the worker process after 2-6 models that failed (lock-order deadlock incl. loom::sync::Arc-shared, data race, Arc + allocation leak, branch limit inside a spin loop, user panic while others are blocked, panic in a payload destructor, leaked messages) and after all earlier jobs of the shard, and again while 3-6 (thorough 3-15) other OS threads run other models with injected yields/sleeps; all three must be identical. non-trivial = one of the two programs runs >= 2 iterations",
+            trusted: vec!["record digests (FNV over Debug output)", "iteration hook", "interpreters"],
+            assumptions: vec!["the TSan and memcheck lanes of the thorough tier are separate commands (see DESIGN §5-C16)"],
+            min_nontrivial: 20,
+        },
         "C13" => Def {
             parts: vec![("path", fam_path::total(prop, tier))],
             clauses: vec!["nondeterministic", "checkpoint_resume", "checkpoint_failure_replay", "unexpected_panic"],
@@ -235,9 +285,21 @@ pub fn replay(path: &str) -> i32 {
             let p: sync::SProg = serde_json::from_value(v["program_json"].clone()).expect("program_json");
             fam_sync::judge(prop, &p, &mut rec, 1, true);
         }
+        "statics" => {
+            let p: fam_statics::StProg = serde_json::from_value(v["program_json"].clone()).expect("program_json");
+            fam_statics::judge(&p, &mut rec, 1);
+        }
+        "fut" => {
+            let p: fam_fut::FProg = serde_json::from_value(v["program_json"].clone()).expect("program_json");
+            fam_fut::judge(&p, &mut rec, 1);
+        }
         "arc" => {
             let p: arcs::AProg = serde_json::from_value(v["program_json"].clone()).expect("program_json");
             arcs::judge(&p, &mut rec, 1, true);
+        }
+        "spin" => {
+            let p: lit::Prog = serde_json::from_value(v["program_json"].clone()).expect("program_json");
+            fam_spin::judge(&p, &mut rec, 1);
         }
         "race" => {
             let p: lit::Prog = serde_json::from_value(v["program_json"].clone()).expect("program_json");
